@@ -150,7 +150,13 @@ def run_tlc(module, cfg_text, env=None, workers=None, simulate=None, depth=None,
 
 
 def tail(text, n):
-    return '\n'.join([l[:300] for l in text.splitlines() if not l.startswith('<<"PROGRAM"')][-n:])
+    """The part of TLC's output worth showing: the error messages (TLC prints long state dumps after them) and the last lines."""
+    L = [l[:300] for l in text.splitlines() if not l.startswith('<<"PROGRAM"')]
+    idx = [i for i, l in enumerate(L) if l.startswith('Error:') or 'Attempted to' in l or 'not in its domain' in l or '***Parse Error***' in l or 'Multiply-defined' in l]
+    head = []
+    for i in idx[:4]:
+        head += L[max(0, i - 1):i + 7] + ['   ...']
+    return '\n'.join(head + L[-n:])
 
 
 def tla_value(v):
